@@ -21,7 +21,7 @@ package bufctl
 // C20: an annotation-set error is printed and becomes ErrFileAnnotation; an error is never cleared.
 //@ func (c *controller) handleFileAnnotationSetRetError(retErrAddr)
 //@   property C20
-//@   modifies heap, ghost.annotPrinted, ghost.fail
+//@   modifies heap, ghost.annotPrinted, ghost.fail, ghost.wfail
 //@   requires !ghost.fail && !ghost.annotPrinted
 //@   ensures never-cleared: old(derefRef(retErrAddr)) != nil ==> derefRef(retErrAddr) != nil
 //@   ensures nil-stays: old(derefRef(retErrAddr)) == nil ==> derefRef(retErrAddr) == nil && ghost.annotPrinted == old(ghost.annotPrinted)
